@@ -34,6 +34,7 @@ def rule_selftest(ctx, cfg, label, which=None, rule='selftest'):
         'C1': (lambda: M.rule_C1(c2, prog, label, only={'m4lint_ctl_C1'}), 'm4lint_ctl_C1'),
         'MV1': (lambda: M.rule_MV1(c2, prog, label, placers=('m4lint_ctl_MV1',)), 'm4lint_ctl_MV1'),
         'S1': (lambda: M.rule_S1(c2, prog, label), 'm4lint_ctl_S1'),
+        'S1-width': (lambda: M.rule_S1(c2, prog, label), 'm4lint_ctl_S1w'),
         'G1': (lambda: G.rule_G1(c2, prog, label), 'm4lint_ctl_G1'),
         'B7p': (lambda: BF.rule_B7p(c2, prog, label), 'm4lint_ctl_B7p'),
     }
